@@ -45,6 +45,11 @@ func (m *Map[K, V]) LoadOrStore(key K, value V) (actual V, loaded bool) {
 		return v, true
 	}
 	m.mutex.Lock()
+	// the key may have been stored between the two critical sections
+	if v, ok = m.data[key]; ok {
+		m.mutex.Unlock()
+		return v, true
+	}
 	m.data[key] = value
 	m.mutex.Unlock()
 	return value, false
